@@ -141,7 +141,7 @@ pub mod passkey_types {
         pub struct PublicKeyCredentialDescriptor { pub id: Bytes }
         pub struct PublicKeyCredentialUserEntity { pub id: Bytes, pub display_name: String, pub name: String }
         pub struct PublicKeyCredentialParameters { pub alg: iana::Algorithm }
-        pub struct AuthenticatorTransport { pub opaque: u8 }
+        #[derive(Clone, Copy)] pub struct AuthenticatorTransport { pub opaque: u8 }
     }
     pub mod ctap2 {
         use super::*;
@@ -177,6 +177,18 @@ pub mod passkey_types {
             //@   deep
             //@ extract mctypes struct SignedExtensionOutputs
             //@ extract mctypes struct UnsignedExtensionOutputs
+        }
+        pub mod get_info {
+            use super::*;
+            use crate::passkey_types::webauthn::AuthenticatorTransport;
+            //@ source gitypes passkey-types/src/ctap2/get_info.rs
+            //@ extract gitypes struct Response
+            //@   deep
+            //@   replace `NonZeroU128` => `u128`
+            //@ extract gitypes struct Options
+            //@ extract gitypes impl Default for Options
+            //@ extract gitypes enum Version
+            //@ extract gitypes enum Extension
         }
         pub mod get_assertion {
             use super::*;
@@ -254,6 +266,17 @@ pub mod p256 {
     }
 } }
 
+pub mod rand { pub struct ThreadRng { pub opaque: u8 } #[verifier::external_body] pub fn thread_rng() -> ThreadRng { unimplemented!() } }
+impl SecretKey { #[verifier::external_body] pub fn random(rng: &mut rand::ThreadRng) -> SecretKey { unimplemented!() } }
+// COSE encodings of an EC2 key pair (coset builders are assumed: new_ec2_pub_key has no `d` parameter)
+pub uninterp spec fn spec_pub_of(sk: SecretKey, alg: iana::Algorithm) -> CoseKey;
+pub uninterp spec fn spec_priv_of(sk: SecretKey, alg: iana::Algorithm) -> CoseKey;
+use coset::iana::Algorithm;
+//@ source lib passkey-authenticator/src/lib.rs
+//@ extract lib struct CoseKeyPair
+//@ extract lib impl CoseKeyPair
+//@   external_body from_secret_key
+
 // =====================================================================================================
 // the store and user-validation traits: real text, with the documented contract made formal
 // =====================================================================================================
@@ -281,6 +304,7 @@ pub mod credential_store {
     //@ source cs passkey-authenticator/src/credential_store.rs
     //@ extract cs struct StoreInfo
     //@ extract cs enum DiscoverabilitySupport
+    //@   derive PartialEq Eq Structural
     //@ extract cs impl DiscoverabilitySupport
     impl DiscoverabilitySupport {
         // C11, from the statement: full = as requested; non-discoverable only = never; forced = always
@@ -329,7 +353,9 @@ pub mod authenticator {
     };
     use crate::{CredentialStore, UserValidationMethod};
     pub mod extensions {
+        use vstd::prelude::*;
         #[verifier::external_body] pub struct Extensions { _p: u8 }
+        impl Extensions { #[verifier::external_body] pub fn list_extensions(&self) -> Option<Vec<crate::passkey_types::ctap2::get_info::Extension>> { unimplemented!() } }
     }
     use extensions::Extensions;
     //@ source auth passkey-authenticator/src/authenticator.rs
@@ -340,7 +366,7 @@ pub mod authenticator {
         pub closed spec fn v_store(&self) -> S { self.store }
         pub closed spec fn v_uv(&self) -> U { self.user_validation }
         pub closed spec fn v_counter_cfg(&self) -> bool { self.make_credentials_with_signature_counter }
-        pub closed spec fn v_id_len(&self) -> u8 { self.credential_id_length.0 }
+        pub closed spec fn v_id_len(&self) -> u8 { self.credential_id_length.spec_len() }
         pub closed spec fn v_aaguid(&self) -> Aaguid { self.aaguid }
     }
     //@ extract auth impl Authenticator
@@ -354,6 +380,47 @@ pub mod authenticator {
     pub(super) struct GetExtensionOutputs {
         pub signed: Option<passkey_types::ctap2::get_assertion::SignedExtensionOutputs>,
         pub unsigned: Option<passkey_types::ctap2::get_assertion::UnsignedExtensionOutputs>,
+    }
+    impl CredentialIdLength { pub closed spec fn spec_len(self) -> u8 { self.0 } }
+    impl vstd::std_specs::convert::FromSpecImpl<CredentialIdLength> for usize {
+        open spec fn obeys_from_spec() -> bool { true }
+        open spec fn from_spec(v: CredentialIdLength) -> usize { v.spec_len() as usize }
+    }
+    //@ extract auth impl From<CredentialIdLength> for usize
+    impl<S, U> Authenticator<S, U> {
+        // stage A: extension processing assumed (refined by the extensions stage)
+        #[verifier::external_body]
+        pub(super) fn make_extensions(&self, request: Option<passkey_types::ctap2::make_credential::ExtensionInputs>, uv: bool) -> Result<MakeExtensionOutputs, StatusCode> { unimplemented!() }
+    }
+    pub(super) struct MakeExtensionOutputs {
+        pub signed: Option<passkey_types::ctap2::make_credential::SignedExtensionOutputs>,
+        pub unsigned: Option<passkey_types::ctap2::make_credential::UnsignedExtensionOutputs>,
+        pub credential: passkey_types::CredentialExtensions,
+    }
+    mod get_info {
+        use super::*;
+        use crate::passkey_types::ctap2::get_info::{Options, Response, Version};
+        use crate::{credential_store::DiscoverabilitySupport, Authenticator, CredentialStore, UserValidationMethod};
+        //@ source gi passkey-authenticator/src/authenticator/get_info.rs
+        //@ extract gi impl Authenticator
+    }
+    mod make_credential {
+        use super::*;
+        use crate::p256::SecretKey;
+        use crate::passkey_types::{
+            ctap2::{
+                make_credential::{Request, Response},
+                AttestedCredentialData, AuthenticatorData, Ctap2Error, StatusCode,
+            },
+            Passkey,
+        };
+        use crate::{Authenticator, CoseKeyPair, CredentialStore, UserValidationMethod};
+        //@ source mc passkey-authenticator/src/authenticator/make_credential.rs
+        //@ extract mc impl Authenticator
+        //@   only make_credential
+        //@   rule R6
+        //@   rule R14 check_user
+        //@   rule R16
     }
     mod get_assertion {
         use super::*;
